@@ -63,6 +63,10 @@ type MemoryRecorder struct {
 	// way during evaluation.
 	byOutputHash map[uint64][]*Event
 	all          []*Event
+	// preexisting holds the facts that some derivation used as an input at
+	// a time when no event had concluded them yet: they were in the store
+	// from the start (base facts), even if a rule re-derives them later.
+	preexisting map[uint64][]ast.Atom
 }
 
 // Ensure MemoryRecorder satisfies the engine interface.
@@ -70,7 +74,7 @@ var _ engine.DerivationRecorder = (*MemoryRecorder)(nil)
 
 // NewMemoryRecorder returns a fresh, empty recorder.
 func NewMemoryRecorder() *MemoryRecorder {
-	return &MemoryRecorder{byOutputHash: make(map[uint64][]*Event)}
+	return &MemoryRecorder{byOutputHash: make(map[uint64][]*Event), preexisting: make(map[uint64][]ast.Atom)}
 }
 
 // RuleFired implements engine.DerivationRecorder.
@@ -105,6 +109,23 @@ func (r *MemoryRecorder) DoEmit(rule ast.Clause, head ast.Atom, groupKey []ast.C
 }
 
 func (r *MemoryRecorder) add(ev *Event) {
+	inputs := ev.PremiseFacts
+	switch ev.Kind {
+	case EventDo:
+		inputs = ev.InputFacts
+	case EventLet:
+		inputs = nil
+		for _, p := range ev.Rule.Premises {
+			if a, ok := p.(ast.Atom); ok {
+				inputs = append(inputs, a.ApplySubst(ev.Row).(ast.Atom))
+			}
+		}
+	}
+	for _, in := range inputs {
+		if in.Predicate.Symbol != "" && isGround(in) && len(r.EventsFor(in)) == 0 && !r.wasPreexisting(in) {
+			r.preexisting[in.Hash()] = append(r.preexisting[in.Hash()], in)
+		}
+	}
 	r.all = append(r.all, ev)
 	h := ev.Output.Hash()
 	r.byOutputHash[h] = append(r.byOutputHash[h], ev)
@@ -123,6 +144,17 @@ func (r *MemoryRecorder) EventsFor(a ast.Atom) []*Event {
 		}
 	}
 	return out
+}
+
+// wasPreexisting returns true if a was used as an input of a derivation
+// before any event concluded it.
+func (r *MemoryRecorder) wasPreexisting(a ast.Atom) bool {
+	for _, f := range r.preexisting[a.Hash()] {
+		if f.Equals(a) {
+			return true
+		}
+	}
+	return false
 }
 
 // BuildFromRecording assembles proof trees for the given goal from a
@@ -179,12 +211,15 @@ func (b *builder) build(goal ast.Atom, depth int) []*ProofNode {
 
 	var proofs []*ProofNode
 	events := b.rec.EventsFor(goal)
-	if len(events) == 0 {
-		// Either a leaf EDB fact or a fact the recorder missed (e.g., an
-		// internal predicate that was never re-queried from the store).
+	if len(events) == 0 || b.rec.wasPreexisting(goal) {
+		// Either a leaf EDB fact, a fact the recorder missed (e.g., an
+		// internal predicate that was never re-queried from the store), or
+		// a base fact that a rule derives again.
 		if b.store.Contains(goal) {
 			proofs = append(proofs, &ProofNode{ID: edbProofID(goal), Fact: goal, Kind: KindEDB})
 		}
+	}
+	if len(events) == 0 {
 		b.cache[h] = proofs
 		return proofs
 	}
